@@ -196,6 +196,26 @@ def _library_globals():
             if isinstance(v, (list, dict)):
                 out.append((cls, a, v))
     out.append((fsic.functions, 'builtins', fsic.functions.builtins))
+    # ... and, generically, every module-level or class-level list / dict / set of the library's own modules (a changed
+    # tree may keep state there that the pinned tree does not have: a run must not inherit it from the run before)
+    import sys as _sys
+    import types as _types
+
+    seen = {id(v) for _c, _a, v in out}
+    for mname, mod in sorted(_sys.modules.items()):
+        if not (mname == 'fsic' or mname.startswith('fsic.')) or not isinstance(mod, _types.ModuleType):
+            continue
+        for a, v in sorted(vars(mod).items()):
+            if a.startswith('__'):
+                continue
+            if isinstance(v, (list, dict, set)) and id(v) not in seen:
+                seen.add(id(v))
+                out.append((mod, a, v))
+            elif isinstance(v, type) and getattr(v, '__module__', '') == mname:
+                for ca, cv in sorted(vars(v).items()):
+                    if not ca.startswith('__') and isinstance(cv, (list, dict, set)) and id(cv) not in seen:
+                        seen.add(id(cv))
+                        out.append((v, ca, cv))
     return out
 
 
@@ -209,7 +229,11 @@ def restore_library_globals():
         return 0
     n = 0
     for c, a, v, pristine in _PRISTINE:
-        if v != pristine:
+        try:
+            changed = bool(v != pristine)
+        except Exception:
+            changed = True  # (e.g. arrays inside: no single truth value)
+        if changed:
             n += 1
             if isinstance(v, list):
                 v[:] = pristine
